@@ -488,15 +488,17 @@ prop('C20', wip=True,
 prop('C05',
      builds=[dict(crate='vm', filters=['c05_'])],
      default=dict(mem=12, timeout={'quick': 1200, 'thorough': 2400}, cbmc_extra=FS2K, unwindset=['memcmp.0:200']),
-     overrides=[(r'c05_gtf_(general|inputs|create)$', dict(tier='thorough', attempt=True, mem=24, timeout=2400))],
-     min_harnesses={'quick': 5, 'thorough': 8},
+     # the GTF harnesses never produced a verdict (no verdict in 1200 s), so their hand-written selector tables were never
+     # validated against the unchanged tree: they are not run in any tier (a wrong table would be a false alarm)
+     overrides=[(r'c05_gtf_(general|inputs|create)$', dict(skip=True))],
+     min_harnesses={'quick': 5, 'thorough': 5},
      functions_encoded=['<op::GM as Execute>::execute, Interpreter::metadata, interpreter::metadata::metadata', 'Interpreter::get_transaction_field, GTFInput::get_transaction_field',
                         'GMArgs::try_from, GTFArgs::try_from', 'init_inner placing the transaction bytes at tx_offset and computing the owner pointer: harnesses c31_init_* (run with C31)'],
      bounds=['GM: all 2^18 immediates, all destination registers, Script / Call / predicate contexts, with and without a call frame (symbolic saved $fp), symbolic chain id / gas price / tx offset / owner pointer',
-             'GTF: thorough-tier attempts only (no verdict in 1200 s so far): a Create transaction with one coin-predicate input, one contract-created output, one storage slot and one witness (kind, create, pointer selectors, selectors of other kinds); a Script with one coin-predicate, one contract and one message-data-predicate input, a coin and a contract output, one witness: 90 selector/index combinations incl. wrong-family, absent-index, other-kind and all undefined selectors'],
+             'GTF: harnesses exist (harness/incrate/vm/c05_meta.rs) but are not run in any tier: no verdict in 1200 s, so their selector tables were never validated: a Create transaction with one coin-predicate input, one contract-created output, one storage slot and one witness (kind, create, pointer selectors, selectors of other kinds); a Script with one coin-predicate, one contract and one message-data-predicate input, a coin and a contract output, one witness: 90 selector/index combinations incl. wrong-family, absent-index, other-kind and all undefined selectors'],
      assumptions=[VM_STUBS_NOTE, 'selector numbers are the specification literals, not the GMArgs/GTFArgs enums'],
      out_of_claim=['GTF on Upload / Upgrade / Blob transactions (kind-specific selectors); Create is covered for the kind / create / script-foreign selectors only', 'other input/output variants and shapes', 'gas charge of GTF (symbolic-schedule charge is asserted for GM)'],
-     level_text='Bounded model checking of the GM instruction against a specification table for all 2^18 immediates, all destination registers and every context (script, call with and without a caller frame, predicate verification and estimation): configured chain id, base-asset pointer, transaction start, gas price, owner pointer, caller and predicate index are returned or the specified panic is raised; GTF harnesses exist as thorough-tier attempts without verdict.',
+     level_text='Bounded model checking of the GM instruction against a specification table for all 2^18 immediates, all destination registers and every context (script, call with and without a caller frame, predicate verification and estimation): configured chain id, base-asset pointer, transaction start, gas price, owner pointer, caller and predicate index are returned or the specified panic is raised; GTF is not decided.',
      level_note='Trusted: Kani/CBMC/cadical, split_registers model. Partial claim (GM only; GTF and the placement of the transaction in memory are not decided).')
 
 prop('C06',
